@@ -589,13 +589,22 @@ def check_C07(run: core.Run, replay=None):
         cases += tamper_matrix()
         cases += sim_cases("ObjectStore_sim.cfg", 300 if quick else 3000, 14, run.seed + 6)
         run.extra["generated_cases"] = {"check": len(gen["check"]), "status_with_corrupt": len(bad), "verify": len(gv["verify"])}
+    if not replay:
+        # checkout must refuse to materialise a corrupt object (Checkout.tla harness, C07 verdicts only)
+        from . import checkoutobj
+
+        gen_co = checkoutobj.generate()
+        co_cases = [c for c in checkoutobj.make_cases(gen_co, rng, 1500 if quick else 12000, "C05")
+                    if "bad" in c["init"]["cache"].values()]
+        checkoutobj.execute_and_validate(run, co_cases)
+        run.extra["checkout_cases_with_corrupt_objects"] = len(co_cases)
     traces = execute(cases, run.seed)
     return _finish(run, traces,
                    "check()/status() on every TLC-generated store mix containing corrupt unprotected objects (both store "
                    "classes), verify-configured transfers from corrupt sources, random behaviours with tampering; "
                    "tampering rewrites bytes after chmod u+w and sets a distinguishable mtime explicitly",
                    ["a corrupt object that is also mode 0o444 is trusted by design (outside the statement: 'not write-protected')",
-                    "checkout of a corrupt object is decided by the Checkout module (C05/C10 harness), not here"])
+                    "checkout of a corrupt cache object: the Checkout.tla traces (prior workspaces x caches holding corrupt objects x targets) are validated here too and their C07 verdicts counted"])
 
 
 def check_C01(run: core.Run, replay=None):
